@@ -10,3 +10,5 @@ import VibeProof.Props.C24
 #print axioms VibeProof.C24.C24_range_guard_needed_null
 #print axioms VibeProof.C24.C24_limit_offset
 #print axioms VibeProof.C24.C24_substring_in_bounds
+#print axioms VibeProof.C24.C24_assign_no_wrap
+#print axioms VibeProof.C24.C24_assign_rejects_out_of_range
